@@ -37,6 +37,10 @@ Definition nonce_explicit (epoch seq : N) : bytes := seq_num epoch seq.
 Definition nonce_aes (write_iv : bytes) (epoch seq : N) : bytes :=
   firstn 4 write_iv ++ nonce_explicit epoch seq.
 
+(* the general RFC 5288 / RFC 6655 form: the receiver takes nonce_explicit from the record, whatever
+   the sender chose (sequence number, counter with a random start, random value) *)
+Definition nonce_aes_rx (write_iv explicit : bytes) : bytes := firstn 4 write_iv ++ explicit.
+
 Fixpoint xor_bytes (a b : bytes) : bytes :=
   match a, b with
   | x :: a', y :: b' => N.lxor x y :: xor_bytes a' b'
@@ -85,6 +89,11 @@ Definition cbc_padding (block : N) (unpadded_len : N) : bytes :=
   let p := block - unpadded_len mod block in
   repeat (p - 1) (N.to_nat p).
 
+(* a receiver must accept any padding length 0..255 that makes the total a block multiple:
+   [padlen] padding bytes plus the padding_length byte, all of value [padlen] *)
+Definition cbc_plaintext_pad (content mac : bytes) (padlen : N) : bytes :=
+  content ++ mac ++ repeat padlen (N.to_nat padlen + 1).
+
 (* plaintext given to the block cipher: content + MAC + padding + padding_length *)
 Definition cbc_plaintext (block : N) (content mac : bytes) : bytes :=
   content ++ mac ++ cbc_padding block (len content + len mac).
@@ -119,3 +128,11 @@ Definition aad13 (cid : bytes) (epoch_low seq64 ct_len : N) : bytes :=
   unified_header cid true true epoch_low (seq64 mod 65536) ct_len.
 Definition header13_masked (cid : bytes) (epoch_low seq64 ct_len : N) (mask : bytes) : bytes :=
   unified_header cid true true epoch_low (sn_mask_apply true (seq64 mod 65536) mask) ct_len.
+
+(* general header forms a receiver must understand: 16- or 8-bit sequence number, with or without
+   the length field *)
+Definition wire_seq (seq_bit : bool) (seq64 : N) : N := if seq_bit then seq64 mod 65536 else seq64 mod 256.
+Definition aad13_gen (cid : bytes) (seq_bit len_bit : bool) (epoch_low seq64 ct_len : N) : bytes :=
+  unified_header cid seq_bit len_bit epoch_low (wire_seq seq_bit seq64) ct_len.
+Definition header13_masked_gen (cid : bytes) (seq_bit len_bit : bool) (epoch_low seq64 ct_len : N) (mask : bytes) : bytes :=
+  unified_header cid seq_bit len_bit epoch_low (sn_mask_apply seq_bit (wire_seq seq_bit seq64) mask) ct_len.
